@@ -12,7 +12,7 @@ package pointindex
 //@ macro gridSpan(ix) = pow2(ix.deepestLevel) * ix.deepestRes
 //@ macro wfIndex(ix) = wfIndexBase(ix) && ix.z == 0
 //@     && ix.intCentroid == arr(ix.intExtent[0] + hfloor(pixSpan(ix, 0)), ix.intExtent[1] + hfloor(pixSpan(ix, 0)))
-//@ macro wfIndexBase(ix) = ix.deepestLevel <= 32 && ix.deepestSize == pow2(ix.deepestLevel) && ix.deepestRes > 0
+//@ macro wfIndexBase(ix) = ix.deepestLevel <= 32 && ix.deepestSize == pow2(ix.deepestLevel) && ix.deepestSize >= 1 && ix.deepestRes > 0
 //@     && 0 - 1152921504606846976 <= ix.intExtent[0] && ix.intExtent[0] <= 1152921504606846976
 //@     && 0 - 1152921504606846976 <= ix.intExtent[1] && ix.intExtent[1] <= 1152921504606846976
 //@     && gridSpan(ix) <= 1152921504606846976
@@ -34,40 +34,70 @@ package pointindex
 //@   ensures[C03] result1 == arr(ix.intExtent[0] + x*span + hfloor(span), ix.intExtent[1] + y*span + hfloor(span))
 
 //@ lemma pow2_split(d Int, l Int)
-//@   prelude arith
+//@   prelude arithdef
 //@   requires 0 <= l && l <= d && d <= 32
 //@   ensures pow2(d) == pow2(l) * pow2(d - l) && pow2(d - l) >= 1 && pow2(l) >= 1
 
 //@ func (*PointIndex).InsertCoord
-//@   prelude arith
-//@   requires wfIndex(ix)
+//@   prelude arith morton
+//@   requires wfIndex(ix) && indexInv0(ix) && indexGrid(ix)
 //@   modifies ix.quadrants
 //@   ensures[C09] (result == nil) == (0 <= deepestX && deepestX < ix.deepestSize && 0 <= deepestY && deepestY < ix.deepestSize)
 //@   ensures[C09] result != nil ==> unchanged(ix.quadrants) && typeIs(result, "pointindex.OutsideGridError")
-//@   ensures wfIndex(ix)
+//@   ensures wfIndex(ix) && indexInv0(ix) && indexGrid(ix)
+//@   ensures result == nil ==> storedQ(ix, 0, 0) && (roundGrid(ix) ==> indexInv(ix))
 
+// insertCoord: verified for safety, termination and frame. That it also keeps the representation invariants of the
+// quadtree (indexInv0, indexGrid) and stores the root is ASSUMED here, not proved (assumedensures): the proof attempt
+// with step assertions is parked in /verif/drafts/insertCoord_invariant_proof.txt. The invariants are what the
+// descent contracts (snapClosestPoints, SnapClosestPoints) take as precondition.
+//@ macro kx(ix, X, l) = X / pow2(ix.deepestLevel - l)
 //@ func (*PointIndex).insertCoord
-//@   prelude arith
-//@   requires wfIndex(ix)
+//@   prelude arith morton
+//@   requires wfIndex(ix) && indexInv0(ix) && indexGrid(ix)
 //@   requires 0 <= deepestX && deepestX < ix.deepestSize && 0 <= deepestY && deepestY < ix.deepestSize
 //@   modifies ix.quadrants
 //@   loop l
-//@     invariant l <= ix.deepestLevel + 1 && !isNil(ix.quadrants)
+//@     invariant l <= ix.deepestLevel + 1 && wfIndex(ix)
+//@     invariant 0 <= deepestX && deepestX < ix.deepestSize && 0 <= deepestY && deepestY < ix.deepestSize
+//@     loopuse l <= ix.deepestLevel ==> pow2_split(ix.deepestLevel, l) && div_bound(deepestX, ix.deepestLevel, l) && div_bound(deepestY, ix.deepestLevel, l)
 //@     decreases ix.deepestLevel + 1 - l
 //@   ensures wfIndex(ix)
+//@   assumedensures indexInv0(ix) && indexGrid(ix) && storedQ(ix, 0, 0)
+//@   assumedensures roundGrid(ix) ==> indexInv(ix)
+
+// arithmetic lemmas used above
+//@ lemma pow2_step(n Int)
+//@   prelude arithdef
+//@   requires 0 <= n && n <= 32
+//@   ensures pow2(n) >= 1 && (n >= 1 ==> pow2(n) == 2 * pow2(n - 1))
+//@ lemma div_bound(x Int, d Int, l Int)
+//@   prelude arith
+//@   requires 0 <= l && l <= d && d <= 32 && 0 <= x && x < pow2(d)
+//@   use pow2_split(d, l)
+//@   use pow2_pos(d - l)
+//@   use pow2_le32(l)
+//@   ensures 0 <= x / pow2(d - l) && x / pow2(d - l) < pow2(l) && x / pow2(d - l) <= 0xFFFFFFFF
+//@ lemma div_nest(x Int, n Int)
+//@   prelude arith
+//@   requires 0 <= x && 0 <= n && n <= 31
+//@   use pow2_step(n + 1)
+//@   use pow2_pos(n)
+//@   ensures x / pow2(n + 1) == (x / pow2(n)) / 2
 
 // C09: a point is accepted exactly when its integer representation lies in the half-open grid.
 // The float -> int conversion (x 1e10, truncated) is modelled over the reals; |ordinate| < 8e8 keeps it inside int64.
 //@ func (*PointIndex).InsertPoint
-//@   prelude arith
-//@   requires wfIndex(ix)
+//@   prelude arith morton
+//@   requires wfIndex(ix) && indexInv0(ix) && indexGrid(ix)
 //@   requires 0 - 800000000 < point[0] && point[0] < 800000000 && 0 - 800000000 < point[1] && point[1] < 800000000
 //@   let px = trunc(point[0] * 10000000000)
 //@   let py = trunc(point[1] * 10000000000)
 //@   modifies ix.quadrants
 //@   ensures[C09] (result == nil) == inGrid(ix, px, py)
 //@   ensures[C09] result != nil ==> unchanged(ix.quadrants) && typeIs(result, "pointindex.OutsideGridError")
-//@   ensures wfIndex(ix)
+//@   ensures wfIndex(ix) && indexInv0(ix) && indexGrid(ix)
+//@   ensures result == nil ==> storedQ(ix, 0, 0) && (roundGrid(ix) ==> indexInv(ix))
 
 //@ macro coordOK(pt) = 0 - 800000000 < pt[0] && pt[0] < 800000000 && 0 - 800000000 < pt[1] && pt[1] < 800000000
 //@ macro inGridF(ix, pt) = inGrid(ix, trunc(pt[0] * 10000000000), trunc(pt[1] * 10000000000))
@@ -76,30 +106,36 @@ package pointindex
 
 // C09: InsertPolygon succeeds exactly when every vertex of every ring lies in the half-open grid.
 // The first loop only sums ring lengths into a capacity hint for make(map, n) and is not verified (havoc).
+//@ macro rootStored(ix) = storedQ(ix, 0, 0) && (roundGrid(ix) ==> indexInv(ix))
+//@ macro idxOK(ix) = wfIndex(ix) && indexInv0(ix) && indexGrid(ix)
 //@ func (*PointIndex).InsertPolygon
-//@   prelude arith
-//@   requires wfIndex(ix) && allCoordsOK(polygon)
+//@   prelude arith morton
+//@   requires idxOK(ix) && allCoordsOK(polygon)
 //@   modifies ix.quadrants
 //@   loop ring havoc
 //@   loop level
-//@     invariant level <= ix.deepestLevel + 1 && wfIndex(ix)
+//@     invariant level <= ix.deepestLevel + 1 && idxOK(ix)
 //@     decreases ix.deepestLevel + 1 - level
 //@   loop ring#2 as r
-//@     invariant 0 - 1 <= r && r < len(polygon) && wfIndex(ix)
+//@     invariant 0 - 1 <= r && r < len(polygon) && idxOK(ix)
 //@     invariant forall(a, 0, r + 1, forall(b, 0, len(polygon[a]), inGridF(ix, polygon[a][b])))
+//@     invariant forall(a, 0, r + 1, len(polygon[a]) > 0 ==> rootStored(ix))
 //@     decreases len(polygon) - r
 //@   loop vertex as v
-//@     invariant 0 - 1 <= r && r + 1 < len(polygon) && wfIndex(ix)
+//@     invariant 0 - 1 <= r && r + 1 < len(polygon) && idxOK(ix)
 //@     invariant 0 - 1 <= v && v < len(polygon[r + 1])
 //@     invariant forall(a, 0, r + 1, forall(b, 0, len(polygon[a]), inGridF(ix, polygon[a][b])))
 //@     invariant forall(b, 0, v + 1, inGridF(ix, polygon[r + 1][b]))
+//@     invariant forall(a, 0, r + 1, len(polygon[a]) > 0 ==> rootStored(ix))
+//@     invariant v >= 0 ==> rootStored(ix)
 //@     decreases len(polygon[r + 1]) - v
 //@   witness wa = r + 1
 //@   witness wb = v + 1
 //@   ensures[C09] result == nil ==> allInGrid(ix, polygon)
 //@   ensures[C09] result != nil ==> 0 <= wa && wa < len(polygon) && 0 <= wb && wb < len(polygon[wa]) && !inGridF(ix, polygon[wa][wb])
 //@   ensures[C09] result != nil ==> typeIs(result, "pointindex.OutsideGridError")
-//@   ensures wfIndex(ix)
+//@   ensures idxOK(ix)
+//@   ensures result == nil ==> forall(a, 0, len(polygon), len(polygon[a]) > 0 ==> rootStored(ix))
 
 // ---------------------------------------------------------------------------------------------
 // C02: the pixel test. "meets" is existential (exists t. meetsAt(l, e, t)); a positive answer supplies a witness,
@@ -278,17 +314,19 @@ package pointindex
 //@ macro bbMaxY(tms) = trunc(bboxTR(tms, 0)[1] * 10000000000)
 //@ macro rootOK(tms, id) = !isNil(tms.TileMatrices[0].PointOfOrigin) && len(tms.TileMatrices[0].VariableMatrixWidths) == 0
 //@     && 0 <= id && 1 <= tms.TileMatrices[0].TileWidth && tms.TileMatrices[0].TileWidth <= 1099511627776 && tmLevel(tms, id) <= 32
-//@     && bbOK(tms) && bbMaxX(tms) - bbMinX(tms) >= pow2(tmLevel(tms, id))
+//@     && bbOK(tms) && bbMaxX(tms) - bbMinX(tms) >= pow2(tmLevel(tms, id)) && bbMaxY(tms) - bbMinY(tms) >= 1
 //@ macro indexable(tms, id) = hasKey(tms.TileMatrices, 0) && rootOK(tms, id)
 //@ macro indexableIf0(tms, id) = hasKey(tms.TileMatrices, 0) ==> rootOK(tms, id)
 //@ func FromTileMatrixSet
-//@   prelude arith tmsaxis
+//@   prelude arith tmsaxis morton
 //@   requires indexable(tileMatrixSet, deepestTMID)
 //@   let level = tmLevel(tileMatrixSet, deepestTMID)
 //@   let res = (bbMaxX(tileMatrixSet) - bbMinX(tileMatrixSet)) / pow2(level)
 //@   use pow2_split(level, 0)
 //@   ensures[C03,C14] (result1 != nil) == (!hasKey(tileMatrixSet.TileMatrices, 0) || xyErr(tileMatrixSet))
 //@   ensures[C03,C14] result1 == nil ==> result0 != nil && wfIndex(result0)
+//@   ensures[C03,C02] result1 == nil ==> indexInv0(result0)
+//@   ensures[C03,C02] result1 == nil ==> indexGrid(result0)
 //@   ensures[C03,C08] result1 == nil ==> result0.deepestLevel == level && result0.deepestSize == pow2(level) && result0.deepestRes == res
 //@   ensures[C03] result1 == nil ==> result0.intExtent == arr(bbMinX(tileMatrixSet), bbMinY(tileMatrixSet), bbMaxX(tileMatrixSet), bbMaxY(tileMatrixSet))
 //@   ensures[C03] result1 == nil ==> result0.z == 0 && result0.intCentroid == arr(result0.intExtent[0] + hfloor(pixSpan(result0, 0)), result0.intExtent[1] + hfloor(pixSpan(result0, 0)))
@@ -296,7 +334,7 @@ package pointindex
 // DeviationStats: formats a report; what matters to validation is that it does not panic and fails when matrix 0
 // is missing. (PrintWithDecimals only formats a number; it is trusted not to panic for n >= Precision + 1.)
 //@ func DeviationStats
-//@   prelude arith tmsaxis
+//@   prelude arith tmsaxis morton
 //@   requires indexableIf0(tms, deepestTMID)
 //@   ensures[C14] err == nil ==> hasKey(tms.TileMatrices, 0)
 
@@ -316,14 +354,23 @@ package pointindex
 // parent and the pixel's extent is the corresponding quarter of the parent's; the root is stored and is ix.Quadrant.
 //@ macro storedQ(ix, l, z) = hasKey(ix.quadrants, l) && hasKey(mget(ix.quadrants, l), z)
 //@ macro quadOf(ix, l, z) = mget(mget(ix.quadrants, l), z)
-//@ macro indexInv(ix) = ix.deepestLevel <= 32 && !isNil(ix.quadrants)
-//@     && storedQ(ix, 0, 0) && quadOf(ix, 0, 0) == ix.Quadrant && extentOK(ix.intExtent)
-//@     && forall(l Int, z Int, 0 <= l && l <= ix.deepestLevel && storedQ(ix, l, z) ==>
+//@ macro entryInv(ix) = forall(l Int, z Int, 0 <= l && l <= ix.deepestLevel && storedQ(ix, l, z) ==>
 //@            quadOf(ix, l, z).z == z && extentOK(quadOf(ix, l, z).intExtent) && (l <= 31 ==> z <= 0x3FFFFFFFFFFFFFFF) && (l == 0 ==> z == 0)
 //@            && (l < ix.deepestLevel ==> wfParent(quadOf(ix, l, z))), trigger(quadOf(ix, l, z)))
-//@     && forall(l Int, z Int, 1 <= l && l <= ix.deepestLevel && storedQ(ix, l, z) ==>
+//@ macro linkInv(ix) = forall(l Int, z Int, 1 <= l && l <= ix.deepestLevel && storedQ(ix, l, z) ==>
 //@            storedQ(ix, l - 1, z / 4) && wfParent(quadOf(ix, l - 1, z / 4))
 //@            && quadOf(ix, l, z).intExtent == childExt(quadOf(ix, l - 1, z / 4), z % 2, (z / 2) % 2), trigger(quadOf(ix, l, z)))
+//@ macro indexInv0(ix) = ix.deepestLevel <= 32 && !isNil(ix.quadrants) && extentOK(ix.intExtent) && entryInv(ix) && linkInv(ix)
+//@ macro indexInv(ix) = indexInv0(ix) && storedQ(ix, 0, 0) && quadOf(ix, 0, 0) == ix.Quadrant
+// grid alignment: every stored pixel of level l sits at (x, y) = FromZ(key) on the grid of level l, and carries that
+// pixel's extent and centre (C03: the coordinate formula of the property statement)
+//@ macro gridExt(ix, l, x, y) = arr(ix.intExtent[0] + x * pixSpan(ix, l), ix.intExtent[1] + y * pixSpan(ix, l), ix.intExtent[0] + (x + 1) * pixSpan(ix, l), ix.intExtent[1] + (y + 1) * pixSpan(ix, l))
+//@ macro gridCentre(ix, l, x, y) = arr(ix.intExtent[0] + x * pixSpan(ix, l) + hfloor(pixSpan(ix, l)), ix.intExtent[1] + y * pixSpan(ix, l) + hfloor(pixSpan(ix, l)))
+//@ macro indexGrid(ix) = forall(l Int, z Int, 0 <= l && l <= ix.deepestLevel && storedQ(ix, l, z) ==>
+//@            even_bits(z) < pow2(l) && even_bits(z >> 1) < pow2(l)
+//@            && quadOf(ix, l, z).intExtent == gridExt(ix, l, even_bits(z), even_bits(z >> 1))
+//@            && quadOf(ix, l, z).intCentroid == gridCentre(ix, l, even_bits(z), even_bits(z >> 1)), trigger(quadOf(ix, l, z)))
+//@ macro roundGrid(ix) = ix.intExtent[2] == ix.intExtent[0] + gridSpan(ix) && ix.intExtent[3] == ix.intExtent[1] + gridSpan(ix)
 // a list of pixels of level l: each element is the stored pixel of its key, and is met by the line
 //@ macro listSound(ix, line, l, s) = forall(i, 0, len(s), storedQ(ix, l, s[i].z) && s[i] == quadOf(ix, l, s[i].z) && meets(line, s[i].intExtent))
 // ... and every stored pixel of level l met by the line is in the list (through its ghost set view)
@@ -343,6 +390,7 @@ package pointindex
 //@   mode real
 //@   prelude geom arith
 //@   requires indexInv(ix) && lineOK(intLine)
+//@   use forall(l Int, z Int, G_sub(intLine, quadOf(ix, l - 1, z / 4).intExtent, quadOf(ix, l, z).intExtent), trigger(quadOf(ix, l, z)))
 //@   ghostview parents by z
 //@   ghostview quadrantsIntersected by z
 //@   loop level
